@@ -12,11 +12,11 @@ CLAIMS = {
   ref="DESIGN.md §6 C01"),
  "C02": dict(
   text="Coq theorem C02: for any finite sequence of write/intern calls (under the no-overflow guard and ABI value ranges) that leaves the writer in End, there is exactly one tree t whose token sequence is the accepted calls in order, the output bytes are exactly enc_tree t, dec_tree (out) = Some (t, |out|) (one well-formed value, nothing trailing, f64 bit for bit, i32 exact, strings byte for byte, direct or by interned id) and finalize returns them; C02_accepted_only: the output is a function of the accepted tokens only (no byte of a rejected call). Correspondence compares status and the current output bytes after EVERY call and the finalised bytes, through the provider functions and api::Context::write_*.",
-  note="Trusted: Coq kernel; hand transcription Write/Writer.v + Msgpack/Rmp.v (rmp 0.8.15 encoders) validated by correspondence; T2 status numbers. Buffer reallocation / returned pointer are runtime facts exercised by sizes crossing the growth points. W=32 guard: see finding F8.",
+  note="Trusted: Coq kernel; hand transcription Write/Writer.v + Msgpack/Rmp.v (rmp 0.8.15 encoders) validated by correspondence; T2 status numbers. Buffer reallocation / returned pointer are runtime facts exercised by sizes crossing the growth points. The W=32 overflow of `length * 2` (finding F8) is repaired in /repo and in the model (C02_w32_former_witness_repaired).",
   ref="DESIGN.md §6 C02/C03"),
  "C03": dict(
   text="Coq theorems C03_status (status = the abstract document builder's, for every op in every reachable state), C03_fits (a call is accepted iff the accepted tokens extended by it are a prefix of some document's token sequence), C03_frame (a rejected or panicking call leaves state, stack, output and interner unchanged - unconditional), C03_out, C03_complete / C03_complete_tokens (End iff the accepted tokens are exactly a document; finalize accordingly), for all finite op sequences, any nesting, W and overflow mode arbitrary under the guard 2*len < 2^W (all lengths < 2^32 at W=64). Correspondence after every call (status + output bytes via hook).",
-  note="Trusted: as C02. The guard excludes declared object lengths >= 2^31 at W=32 where `length * 2` overflows (C03_refuted_w32; finding F8).",
+  note="Trusted: as C02. The guard 2*len < 2^W is still needed for the unbounded statement (the item counter would overflow after 2^W - 1 accepted items); the defect that lay outside it at W=32 (`length * 2` wrapping, finding F8) is repaired in /repo and the model transcribes the repaired test (C03_w32_former_witness_repaired).",
   ref="DESIGN.md §6 C02/C03"),
  "C05": dict(
   text="Coq theorems C05_read / C05_plan / C05_plan_tail over a transcribed model of Logs::append, Logs::read_ptrs and the glue's copies: for every capacity > 0, every byte type and every sequence of messages of any lengths (hence at every prefix = every point where the host may read), the reported segments concatenated are the last min(total,capacity) bytes logged, and every plan is inside the buffer and covers exactly the retained tail. The capacity is regenerated from log.rs; the model is tied to the code by running both on generated message sequences (plans and host views compared after every message).",
